@@ -1784,7 +1784,9 @@ class sptensor:
             if self.nnz == 0:
                 return self.copy()
             return ttb.sptensor(
-                self.subs, self.vals * factor[self.subs[:, dims]], self.shape
+                self.subs,
+                self.vals * np.reshape(factor[self.subs[:, dims]], (-1, 1)),
+                self.shape,
             )
         if isinstance(factor, np.ndarray):
             shapeArray = np.array(self.shape)
